@@ -168,6 +168,11 @@ impl BinaryMatrix for DenseBinaryMatrix {
     }
 
     fn count_ones(&self, row: usize, start_col: usize, end_col: usize) -> usize {
+        if start_col >= end_col {
+            // Empty range. Looking up its word would point behind the row when start_col is the
+            // matrix width and a multiple of the word width.
+            return 0;
+        }
         let (start_word, start_bit) = self.bit_position(row, start_col);
         let (end_word, end_bit) = self.bit_position(row, end_col);
         // Handle case when there is only one word
@@ -195,12 +200,19 @@ impl BinaryMatrix for DenseBinaryMatrix {
 
     fn get_row_iter(&self, row: usize, start_col: usize, end_col: usize) -> OctetIter<'_> {
         let (first_word, first_bit) = self.bit_position(row, start_col);
-        let (last_word, _) = self.bit_position(row, end_col);
+        // One past the word of the last column that is iterated. Looking up end_col itself would
+        // point behind the row (and for the last row behind the matrix) when it is a multiple of
+        // the word width.
+        let end_word = if end_col > start_col {
+            self.bit_position(row, end_col - 1).0 + 1
+        } else {
+            first_word
+        };
         OctetIter::new_dense_binary(
             start_col,
             end_col,
             first_bit,
-            &self.elements[first_word..=last_word],
+            &self.elements[first_word..end_word],
         )
     }
 
